@@ -65,7 +65,7 @@ func c16Spawn(t *testing.T, sys ActorSystem, ctx context.Context, name string, r
 
 func c16WaitFor(t *testing.T, what string, cond func() bool) bool {
 	t.Helper()
-	deadline := time.Now().Add(10 * time.Second)
+	deadline := time.Now().Add(40 * time.Second)
 	for !cond() {
 		if time.Now().After(deadline) {
 			t.Errorf("timed out waiting for %s", what)
@@ -1023,7 +1023,7 @@ func c16StressRound(t *testing.T, seed uint64, nReq, nMsg, round int) c16StressO
 	}
 	wg.Wait()
 	// quiescence of the actors that keep running: cancel what can never be answered, flush the late Thens
-	deadline := time.Now().Add(20 * time.Second)
+	deadline := time.Now().Add(45 * time.Second)
 	for _, a := range actors[:nReq] {
 		for {
 			a.mu.Lock()
@@ -1126,45 +1126,47 @@ type c16RaceOut struct {
 func TestVerifC16RegisterRace(t *testing.T) {
 	w := newVerifWriter(t, "c16_race_out.jsonl")
 	defer w.close()
-	rounds, g := 400, 8
+	rounds, g := 2500, 12
 	if os.Getenv("VERIF_TIER") == "thorough" {
-		rounds = 4000
+		rounds = 20000
 	}
 	out := c16RaceOut{Rounds: rounds, Goroutines: g}
 	for round := 0; round < rounds && len(out.Violations) < 3; round++ {
 		limit := 1 + round%3
 		pid := &PID{logger: log.DiscardLogger}
 		pid.reentrancy.Store(newReentrancyState(reentrancy.AllowAll, limit))
-		var start sync.WaitGroup
-		var done sync.WaitGroup
+		var ready, done sync.WaitGroup
+		var start atomic.Bool
 		var admitted atomic.Int32
-		var maxSeen atomic.Int64
-		start.Add(1)
 		states := make([][]*requestState, g)
 		for i := 0; i < g; i++ {
+			ready.Add(1)
 			done.Add(1)
 			go func(i int) {
 				defer done.Done()
-				start.Wait()
-				for k := 0; k < 3; k++ {
-					st := newRequestState(fmt.Sprintf("r%d-%d-%d", round, i, k), reentrancy.AllowAll, pid)
+				sts := []*requestState{
+					newRequestState(fmt.Sprintf("r%d-%d-0", round, i), reentrancy.AllowAll, pid),
+					newRequestState(fmt.Sprintf("r%d-%d-1", round, i), reentrancy.AllowAll, pid),
+				}
+				ready.Done()
+				for !start.Load() { // spin: all contenders hit the admission check together
+				}
+				for _, st := range sts {
 					if err := pid.registerRequestState(st); err == nil {
 						admitted.Add(1)
 						states[i] = append(states[i], st)
-						if v := pid.reentrancy.Load().inFlightCount.Load(); v > maxSeen.Load() {
-							maxSeen.Store(v)
-						}
 					} else if !errors.Is(err, gerrors.ErrReentrancyInFlightLimit) {
 						admitted.Add(1000)
 					}
 				}
 			}(i)
 		}
-		start.Done()
+		ready.Wait()
+		start.Store(true)
 		done.Wait()
 		re := pid.reentrancy.Load()
 		if a := int(admitted.Load()); a != limit || re.requestStates.Len() != limit || re.inFlightCount.Load() != int64(limit) {
-			out.Violations = append(out.Violations, fmt.Sprintf("round %d: limit %d, %d goroutines x 3 registrations: admitted=%d len(requestStates)=%d inFlightCount=%d",
+			out.Violations = append(out.Violations, fmt.Sprintf("round %d: limit %d, %d goroutines x 2 registrations: admitted=%d len(requestStates)=%d inFlightCount=%d",
 				round, limit, g, a, re.requestStates.Len(), re.inFlightCount.Load()))
 		}
 		for _, ss := range states {
